@@ -18,3 +18,15 @@ Theorem C02_bdiag_mul : forall (F : fieldType) (m : nat) (A B C D : 'M[F]_m),
   bdiag A B *m bdiag C D = bdiag (A *m C) (B *m D).
 Proof. move=> F m A B C D. exact: bdiag_mul. Qed.
 Print Assumptions C02_bdiag_mul.
+
+(* one QSD level with optimisation A.1: cosine-sine factorisation, the multiplexed RY built with CZ (last CZ omitted = Y,
+   property C13) and the sign absorption into the right factor, both block pairs demultiplexed: the emitted blocks multiply to U *)
+Theorem C02_qsd_step : forall (F : fieldType) (m : nat) (U CS Y : 'M[F]_(m + m)) (u0 u1 v0 v1 Z : 'M[F]_m)
+  (Vl Dl Dlinv Wl Vr Dr Drinv Wr : 'M[F]_m),
+  U = bdiag u0 u1 *m CS *m bdiag v0 v1 ->
+  CS = bdiag 1%:M Z *m Y ->
+  bdiag u0 (u1 *m Z) = bdiag Vr Vr *m bdiag Dr Drinv *m bdiag Wr Wr ->
+  bdiag v0 v1 = bdiag Vl Vl *m bdiag Dl Dlinv *m bdiag Wl Wl ->
+  (bdiag Vr Vr *m bdiag Dr Drinv *m bdiag Wr Wr) *m Y *m (bdiag Vl Vl *m bdiag Dl Dlinv *m bdiag Wl Wl) = U.
+Proof. move=> F m U CS Y u0 u1 v0 v1 Z Vl Dl Dlinv Wl Vr Dr Drinv Wr. exact: qsd_step. Qed.
+Print Assumptions C02_qsd_step.
